@@ -44,6 +44,8 @@ def run(ctx):
     fixup(ctx, fs)
     reject(ctx, rn, fam, fs)
     preserve(ctx, rn, fam)
+    from . import c09
+    c09.logical_pair(ctx, 'PRESERVE')
     cyclecheck(ctx)
     state_rule(ctx, rn)
 
@@ -190,6 +192,8 @@ def fixup(ctx, fs):
         if 'BitAnd' in ops and 'BitXor' in ops:
             fix = cb
     ctx.ob('FIXUP', 'fix-closure', fix is not None, short_loc(fs.span), 'closure rewriting late-bound keys found: %s' % (fix is not None))
+    pt = positional_truncations(fs)
+    ctx.ob('FIXUP', 'visits-whole-collections', not pt, short_loc(fs.span), 'positional selections (take / skip / nth / first / sub-range) in the fix-up traversal: %s' % (sorted({x[2] for x in pt}) or 'none'))
     if fix is None:
         return
     ctx.touched(fix)
@@ -378,6 +382,8 @@ def cyclecheck(ctx):
         ctx.ob('CYCLECHECK', 'anchors', False, None, 'check_for_cycles functions not found')
         return
     ctx.touched(inner, len(inner.calls())); ctx.touched(outer, len(outer.calls()))
+    pt = positional_truncations(inner) + positional_truncations(outer)
+    ctx.ob('CYCLECHECK', 'visits-whole-collections', not pt, short_loc(inner.span), 'positional selections (take / skip / nth / first / sub-range) in the cycle search: %s' % (sorted({x[2] for x in pt}) or 'none'))
     tables = [i for i in range(1, inner.nargs + 1) if 'Vec<bool>' in inner.local_ty(i)]
     ctx.ob('CYCLECHECK', 'two-tables', len(tables) == 2, short_loc(inner.span), 'boolean per-node tables passed down the search: %d (on-stack and done)' % len(tables))
     w = bool_table_writes(inner)
@@ -441,4 +447,13 @@ def state_rule(ctx, rn):
         none_arm = any('None' in names and 'names' in deep_fields(rn, {'copy': {'l': oo_l}}, 2) if False else ('None' in names) for names, adt, oo, d_, oth in option_guards(rn, ps[0][0]) for oo_l in [0])
         ko = origin(rn, ps[0][1]['args'][1])
         ok = none_arm
+    # the key handed out for a not-yet-defined name carries the late-lookup marker: idx = unresolved_names.len() | BIT
+    marked = False
+    for bb in sorted(rn.live_blocks()):
+        for s_ in rn.stmts(bb):
+            if 'assign' in s_ and s_['rv']['k'] == 'agg' and s_['rv'].get('adt', '').endswith('schema::safe::SchemaKey'):
+                io = origin(rn, s_['rv']['ops'][0])
+                if 'unresolved_names' in io.fields and 'len' in io.flags:
+                    marked = 'arith:BitOr' in io.flags and any(a[0] == 'const' for a in io.atoms)
+    ctx.ob('STATE', 'late-key-marked', marked, short_loc(rn.span), 'the key of an unresolved reference is unresolved_names.len() | LATE_NAME_LOOKUP_REMAP_BIT: %s' % marked)
     ctx.ob('STATE', 'unresolved-pushed-once', ok, short_loc(rn.span), 'an unknown reference is pushed to unresolved_names exactly at one site, in the None arm of the name lookup: %s' % ok)
